@@ -133,7 +133,14 @@ def generate(rs: int, tier: str, index: int) -> dict:
         elif cls == "alloc":
             step["fault"] = {"kind": "alloc", "mode": "all", "u": c.u64()}
         steps.append(step)
-    return {"property": ID, "run_seed": rs, "tier": tier, "prelude": prelude.gen_prelude(core.Chooser(rs, "prelude")), "class": cls, "steps": steps}
+    plan = {"property": ID, "run_seed": rs, "tier": tier, "prelude": prelude.gen_prelude(core.Chooser(rs, "prelude")), "class": cls, "steps": steps}
+    ce = ch.sub("environment")
+    if ce.chance(0.25):
+        # process-wide settings in force during the calls: warnings escalated to errors (python -W error) and/or numpy's
+        # floating-point error state set to raise; both turn conditions that are normally silent into exceptions
+        # arriving in the middle of an operation
+        plan["environment"] = ce.choice([{"warnings": "error"}, {"errstate": "raise"}, {"warnings": "error", "errstate": "raise"}])
+    return plan
 
 
 # ---------------------------------------------------------------------------
@@ -207,6 +214,19 @@ class Runner:
             self.violations.append(rec)
         self.events.append(["violation", sid, clause, op, where])
 
+    def _environment(self) -> Any:
+        import contextlib
+        import warnings
+
+        stack = contextlib.ExitStack()
+        envd = self.plan.get("environment") or {}
+        if envd.get("warnings") == "error":
+            stack.enter_context(warnings.catch_warnings())
+            warnings.simplefilter("error")
+        if envd.get("errstate") == "raise":
+            stack.enter_context(numpy.errstate(all="raise"))
+        return stack
+
     def one_call(self, step: dict, mode: str, k: Optional[int]) -> Optional[str]:
         """Build fresh arguments, snapshot, call under the given fault, compare.
         Returns the outcome label."""
@@ -228,6 +248,7 @@ class Runner:
         fired = None
         tracer = None
         try:
+          with self._environment():
             if mode == "line" or mode == "count":
                 tracer = seams.LineTracer(NUMPOLY_DIR, k=k if mode == "line" else None)
                 try:
@@ -258,6 +279,8 @@ class Runner:
         except BaseException as exc:  # noqa: BLE001
             outcome = "raised:" + type(exc).__name__
             self.bump("outcome:natural_raise")
+            if isinstance(exc, (Warning, FloatingPointError)) and self.plan.get("environment"):
+                self.bump("fault:environment_escalation.fired")
         after = snap((args, kwargs))
         self.bump("decided")
         self.bump(f"op:{desc['op']}")
@@ -357,6 +380,8 @@ def execute(plan: dict) -> dict:
 
 
 def simplify(plan: dict):
+    if plan.get("environment"):
+        yield {k: v for k, v in plan.items() if k != "environment"}
     if plan.get("prelude"):
         yield dict(plan, prelude=None)
         for i in range(len(plan["prelude"])):
